@@ -110,9 +110,12 @@ def kernels():
         "Proof. intros {vars} Hpath. unfold {T}_path in Hpath; rops. path_facts Hpath. unfold {T}.\n"
         "  cbv [%s]; rops.\n"
         "  repeat match goal with |- context [Reqb ?a ?b] => let E := fresh \"E\" in destruct (Reqb_spec a b) as [E|E];\n"
-        "    [ try (exfalso; match goal with H : _ <> _ |- _ => apply H; rewrite <- E; ring end)\n"
-        "    | try (exfalso; apply E; match goal with H : _ = _ |- _ => rewrite <- H; ring end) ] end;\n"
-        "  list_eq ltac:(first [ring | field; auto | (field; intro Hz; match goal with H : _ <> _ |- _ => apply H; rewrite <- Hz; ring end)]). Qed." % UNF)
+        "    (* the guard of the code and of the model are ring-equal, not syntactically equal (sum, einsum, ...): compare\n"
+        "       them through transitivity + ring (never by rewriting a literal 0, which may occur inside the traced sum) *)\n"
+        "    [ try (exfalso; match goal with H : _ <> _ |- _ => apply H; etransitivity; [|exact E]; ring end)\n"
+        "    | try (exfalso; apply E; match goal with H : _ = _ |- _ => etransitivity; [|exact H]; ring end) ] end;\n"
+        "  list_eq ltac:(first [ring | (unfold Rdiv; ring) | (field; auto)\n"
+        "    | (field; repeat split; intro Hz; match goal with H : _ <> _ |- _ => apply H; etransitivity; [|exact Hz]; ring end)]). Qed." % UNF)
     ks.append(Kernel(
         "bary_pairs", {"t": [T1, T2], "p": [[0.25, 0.25, 1.0], [2.0, -1.0, 0.5]]},
         lambda t, p: barycentric_coordinates_of_points(t, p),
